@@ -306,7 +306,7 @@ def check(pid, tier, seed, keep=False, extra_env=None, quiet=False):
             violations.append(dict(cls="asan", detail="AddressSanitizer report", replay=wp, match={}))
         if rep is not None:
             agg["evaluations"] += int(rep.get("evaluations", 0))
-            agg["distinct"].update("%s/%s" % (part["name"], k) for k in rep.get("distinct_keys", []))
+            agg["distinct"].update("%s/%s" % (part["name"], k) for k in (rep.get("distinct_keys") or []))
             if rep.get("rule") and rep["rule"] not in agg["rules"]:
                 agg["rules"].append(rep["rule"])
             for s in rep.get("samples") or []:
